@@ -732,7 +732,9 @@ type bnSubPlan struct {
 	Seed        int64
 }
 
-func bnFreeRun(id int, seed int64, minEv, maxEv int) (out bnPathOut) {
+// profile "stop": every run calls Stop() while a saturating emitter and fast
+// consumers are at work (shutdown under load).
+func bnFreeRun(id int, seed int64, minEv, maxEv int, profile string) (out bnPathOut) {
 	out.ID, out.Mode = id, "free"
 	out.Steps = []bnStepOut{}
 	rng := rand.New(rand.NewSource(seed))
@@ -749,14 +751,18 @@ func bnFreeRun(id int, seed int64, minEv, maxEv int) (out bnPathOut) {
 	out.InitObs = f.obsLocked()
 	src.mu.Unlock()
 
+	modes := []string{"fast", "fast", "slow", "stall", "never"}
 	stopAt := -1
 	if rng.Intn(3) == 0 {
 		stopAt = rng.Intn(nev + 1)
 	}
 	burst := rng.Intn(3) == 0 // emitter without think times
 	early := rng.Intn(4) == 0 // emitter starts before anybody has subscribed
+	if profile == "stop" {
+		stopAt, burst, early = 1+rng.Intn(nev), true, false
+		modes = []string{"fast", "fast", "fast", "slow"}
+	}
 	plans := make([]bnSubPlan, n)
-	modes := []string{"fast", "fast", "slow", "stall", "never"}
 	neverMask := 0
 	for s := range plans {
 		p := bnSubPlan{StartAfter: rng.Intn(nev/2 + 1), HMode: rng.Intn(3), Mode: modes[rng.Intn(len(modes))],
@@ -1046,7 +1052,7 @@ func TestVerifBlockNtfnsFree(t *testing.T) {
 				results[i].Error = fmt.Sprintf("driver panic: %v\n%s", r, bnDump())
 			}
 		}()
-		results[i] = bnFreeRun(i, seed*1000003+int64(i)*7919+1, minEv, maxEv)
+		results[i] = bnFreeRun(i, seed*1000003+int64(i)*7919+1, minEv, maxEv, os.Getenv("VERIF_FREE_PROFILE"))
 	})
 	bnWrite(t, outFn, results)
 }
